@@ -131,7 +131,7 @@ let run (args : string list) : string =
       Cmd_cfb.hex_of_bytes_fast file;
       b01 (xfile_legalb wb ch);
       string_of_int (int_of_nat (Cfb.fuel_for ch.xc_layout));
-      "spec=" ^ result_str (spec_result wb ch) ]
+      "spec=" ^ result_str (spec_result show_f64 wb ch) ]
   | ["open"; hx; fuel] ->
     outcome_str (xls_open_model fdiv100 decode16 show_f64 (nat_of_int (int_of_string fuel))
                    (Cmd_cfb.bytes_of_hex_shared hx))
